@@ -18,6 +18,17 @@
 #include "kernel/cache_hash.h"
 #include "kernel/environment.h"
 
+#if defined(VITA_VERIF)
+/// Verification hook (H3): optional scheduling points inside the cache's
+/// critical sections (no-op unless a callback is installed).
+namespace vita::verif
+{
+using sched_point_t = void (*)(int);
+inline sched_point_t sched_point = nullptr;
+inline void sp(int id) { if (sched_point) sched_point(id); }
+}  // namespace vita::verif
+#endif
+
 namespace vita
 {
 ///
